@@ -32,6 +32,12 @@ func crashraceMain(args []string) {
 	r := rng(cf.seed, "crashrace")
 	var mu sync.Mutex
 	calls := 0
+	if cf.replay == "" {
+		// first: the goroutine diagnoser looks at the whole process (rounds that trip over the known wedge leave
+		// blocked goroutines behind)
+		flapScenario(sum)
+		calls++
+	}
 	shards := cf.shards
 	if shards > cf.count {
 		shards = cf.count
@@ -75,10 +81,6 @@ func crashraceMain(args []string) {
 		}()
 	}
 	wg.Wait()
-	if cf.replay == "" && !sum.tooMany() {
-		flapScenario(sum)
-		calls++
-	}
 	sum.Cases = calls
 	sum.finish(start, cf.out)
 }
